@@ -34,6 +34,17 @@ def configs(avx):
     c.append(("whfast-bary", lambda s: setattr(s.ri_whfast, "coordinates", "barycentric")))
     c.append(("whfast-unsafe", lambda s: setattr(s.ri_whfast, "safe_mode", 0)))
     c.append(("whfast-corr", lambda s: (setattr(s.ri_whfast, "safe_mode", 0), setattr(s.ri_whfast, "corrector", 11))))
+    # keep_unsynchronized: every integrate() ends with a synchronisation that must not disturb the continuation (bitwise split clause),
+    # also for the variational particles that share the internal coordinate array
+    c.append(("whfast-keep", lambda s: (setattr(s.ri_whfast, "safe_mode", 0), setattr(s.ri_whfast, "keep_unsynchronized", 1))))
+
+    def keepvar(s):
+        s.ri_whfast.safe_mode = 0
+        s.ri_whfast.keep_unsynchronized = 1
+        v = s.add_variation()
+        v.particles[1].x = 1e-3
+        v.particles[2].vy = -2e-3
+    c.append(("whfast-keepvar", keepvar))
     c.append(("saba", lambda s: None))
     c.append(("saba-unsafe", lambda s: setattr(s.ri_saba, "safe_mode", 0)))
     c.append(("eos", lambda s: None))
@@ -332,7 +343,7 @@ def scenarios(rng, cfg, tier):
         yield [[(40 * U, rep % 2, ("user", b), True, None), (50 * U, 0, None, False, None)]], {"dt": dt}
         yield [[(float("inf"), 0, ("user", 3 + b), False, None)]], {"dt": dt}
         # (moving / removing particles from the heartbeat is only legal while synchronised)
-        if "unsafe" not in cfg and "corr" not in cfg:
+        if "unsafe" not in cfg and "corr" not in cfg and "keep" not in cfg:
             yield [[(40 * U, 1, ("escape", b), True, None)]], {"dt": dt, "exit_max": 50.0}
             yield [[(40 * U, 0, ("encounter", b), True, None)]], {"dt": dt, "exit_min": 0.01}
             # (BS keeps integrating without particles: its N-body ODE counts as a user ODE)
